@@ -154,16 +154,66 @@ def Fz (ex : Bool) (self : String) : Expr → Bool
   | .or_ es => Ff true self (.or_ es)
   | .for_ l i t s b => if ex then Fx [] self (.for_ l i t s b) else Ff true self (.for_ l i t s b)
   | .fn ps rest body => Ff true self (.fn ps rest body)
-  | .defn name ps rest body => Ff true self (.defn name ps rest body)
+  | .defn name ps rest body => Ff true self (.defn name ps rest body) ||
+      (okRest rest && okName name && (name != "") && decide (ps ++ rest.toList).Nodup && ps.all okParam && !body.isEmpty
+        && FzList ex name body)
   | _ => false
+/-- a statement before the last one of a body: a form of F2 (`ex`: whose loops may `break`/`continue`), or a nested
+`defn` whose body is again in `FzList` (self tail calls, loops with exits — in nested functions) -/
+def Fs (ex : Bool) (self : String) : Expr → Bool
+  | .defn name ps rest body => (if ex then Fx [] self (.defn name ps rest body) else Ff true self (.defn name ps rest body)) ||
+      (okRest rest && okName name && (name != "") && decide (ps ++ rest.toList).Nodup && ps.all okParam && !body.isEmpty
+        && FzList ex name body)
+  | .call f args => if ex then Fx [] self (.call f args) else Ff true self (.call f args)
+  | .begin_ es => if ex then Fx [] self (.begin_ es) else Ff true self (.begin_ es)
+  | .cond arms d => if ex then Fx [] self (.cond arms d) else Ff true self (.cond arms d)
+  | .newScope es => if ex then Fx [] self (.newScope es) else Ff true self (.newScope es)
+  | .let_ seq bs body => if ex then Fx [] self (.let_ seq bs body) else Ff true self (.let_ seq bs body)
+  | .int v => if ex then Fx [] self (.int v) else Ff true self (.int v)
+  | .bool v => if ex then Fx [] self (.bool v) else Ff true self (.bool v)
+  | .str v => if ex then Fx [] self (.str v) else Ff true self (.str v)
+  | .nilLit => if ex then Fx [] self .nilLit else Ff true self .nilLit
+  | .sym x => if ex then Fx [] self (.sym x) else Ff true self (.sym x)
+  | .arr es => if ex then Fx [] self (.arr es) else Ff true self (.arr es)
+  | .def_ x e => if ex then Fx [] self (.def_ x e) else Ff true self (.def_ x e)
+  | .set_ x e => if ex then Fx [] self (.set_ x e) else Ff true self (.set_ x e)
+  | .and_ es => if ex then Fx [] self (.and_ es) else Ff true self (.and_ es)
+  | .or_ es => if ex then Fx [] self (.or_ es) else Ff true self (.or_ es)
+  | .for_ l i t s b => if ex then Fx [] self (.for_ l i t s b) else Ff true self (.for_ l i t s b)
+  | .fn ps rest body => if ex then Fx [] self (.fn ps rest body) else Ff true self (.fn ps rest body)
+  | .assign a b => if ex then Fx [] self (.assign a b) else Ff true self (.assign a b)
+  | .bad a => if ex then Fx [] self (.bad a) else Ff true self (.bad a)
+  | .break_ l => if ex then Fx [] self (.break_ l) else Ff true self (.break_ l)
+  | .continue_ l => if ex then Fx [] self (.continue_ l) else Ff true self (.continue_ l)
 def FzList (ex : Bool) (self : String) : List Expr → Bool
   | [] => true
   | [e] => Fz ex self e
-  | e :: e' :: es => (if ex then Fx [] self e else Ff true self e) && FzList ex self (e' :: es)
+  | e :: e' :: es => Fs ex self e && FzList ex self (e' :: es)
 def FzArms (ex : Bool) (self : String) : List (Expr × Expr) → Bool
   | [] => true
   | (p, b) :: r => Ff true self p && Fz ex self b && FzArms ex self r
 end
+
+/-- the statements of F2 (resp. Fx) are statements of a body -/
+theorem fs_of_stmt {ex : Bool} {self : String} {e : Expr} (h : (if ex then Fx [] self e else Ff true self e) = true) :
+    Fs ex self e = true := by
+  cases e <;> first | (rw [Fs]; exact h) | (rw [Fs, h]; rfl)
+
+/-- a statement of a body: as before, or a nested `defn` with a body of `FzList` -/
+theorem fs_cases {ex : Bool} {self : String} {e : Expr} (h : Fs ex self e = true) :
+    (if ex then Fx [] self e else Ff true self e) = true ∨
+      ∃ name ps rest body, e = .defn name ps rest body ∧ okRest rest = true ∧ okName name = true ∧ name ≠ ""
+        ∧ (ps ++ rest.toList).Nodup ∧ (∀ p ∈ ps, okParam p = true) ∧ body ≠ [] ∧ FzList ex name body = true := by
+  cases e with
+  | defn name ps rest body =>
+    rw [Fs] at h
+    simp only [Bool.or_eq_true] at h
+    rcases h with h | h
+    · exact Or.inl h
+    · simp only [Bool.and_eq_true, bne_iff_ne, ne_eq, decide_eq_true_eq, Bool.not_eq_true', List.isEmpty_eq_false_iff,
+        List.all_eq_true] at h
+      exact Or.inr ⟨name, ps, rest, body, rfl, h.1.1.1.1.1.1, h.1.1.1.1.1.2, h.1.1.1.1.2, h.1.1.1.2, h.1.1.2, h.1.2, h.2⟩
+  | _ => rw [Fs] at h; exact Or.inl h
 
 mutual
 theorem fz_of_ff : ∀ (self : String) (e : Expr), Ff true self e = true → Fz false self e = true
@@ -199,7 +249,7 @@ theorem fz_of_ff : ∀ (self : String) (e : Expr), Ff true self e = true → Fz 
   | self, .or_ es, h => by rw [Fz]; exact h
   | self, .for_ l i t s b, h => by rw [Fz]; simpa using h
   | self, .fn ps rest body, h => by rw [Fz]; exact h
-  | self, .defn name ps rest body, h => by rw [Fz]; exact h
+  | self, .defn name ps rest body, h => by rw [Fz, h]; rfl
   | self, .assign _ _, h => by simp [Ff] at h
   | self, .bad _, h => by simp [Ff] at h
   | self, .break_ _, h => by simp [Ff] at h
@@ -211,8 +261,8 @@ theorem fzList_of_ff : ∀ (self : String) (es : List Expr), FfList true self es
     rw [FzList]; exact fz_of_ff self e h.1
   | self, e :: e' :: es, h => by
     rw [FfList] at h; simp only [Bool.and_eq_true] at h
-    rw [FzList]; simp only [Bool.and_eq_true, Bool.false_eq_true, if_false]
-    exact ⟨h.1, fzList_of_ff self (e' :: es) h.2⟩
+    rw [FzList]; simp only [Bool.and_eq_true]
+    exact ⟨fs_of_stmt (by simpa using h.1), fzList_of_ff self (e' :: es) h.2⟩
 theorem fzArms_of_ff : ∀ (self : String) (arms : List (Expr × Expr)), FfArms true self arms = true → FzArms false self arms = true
   | _, [], _ => by rw [FzArms]
   | self, (p, b) :: r, h => by
